@@ -220,15 +220,26 @@ def _has_partial_trace(expr_sympy, target):
 
 
 def _check(key, expr_sympy, target_names, tstring, bks, anti, backend, opt,
-           nontrivial=True):
+           nontrivial=True, spin=None):
+    """spin: optional dict index name -> 'a' | 'b'.  The library is then
+    called on the spin-labelled expression with the matching target_spin;
+    the emitted program carries names only, so it is interpreted - and the
+    reference value is computed - on the spin-free expression."""
     base = {"key": key, "transitions": 1, "nontrivial": nontrivial}
     target = gen.syms(target_names)
     e0 = Expr(expr_sympy)
+    tspin = None
+    if spin:
+        rep = {gen.sym(n): gen.sym(f"{n}_{sp}") for n, sp in spin.items()}
+        e0 = Expr(expr_sympy.xreplace(rep))
+        tspin = "".join("," if c == "," else spin[c] for c in tstring)
     info = (f"generate_code({expr_sympy}, target_indices={tstring!r}, "
             f"bra_ket_sym={bks}, antisymmetric_result_tensor={anti}, "
             f"backend={backend!r}, optimize_contraction_scheme={opt})\n")
-    code, err = safe_call(generate_code, e0, tstring, None, bks, anti,
+    code, err = safe_call(generate_code, e0, tstring, tspin, bks, anti,
                           backend, None, None, opt)
+    if spin:
+        info += f"(spin-labelled input {e0.sympy}, target_spin={tspin!r})\n"
     if err:
         head = err.split("\n")[0]
         if head.startswith("NotImplementedError"):
@@ -314,6 +325,21 @@ def run_case(case):
                                 opt))
                     results.append(_check(key, term, tn, tstring, 0, True,
                                           backend, opt))
+        # spin-labelled variant (target_spin given): every fourth term
+        names = sorted({str(x) for x in term.atoms(Index)}, key=gen.name_key)
+        if len(ein) >= 2 and all(len(n) == 1 for n in names) and \
+                len(repr(desc)) % 4 == 0:
+            # all alpha: mixed spins would hit spin-forbidden tensor blocks
+            # (f, V, t amplitudes), which the library drops
+            spin = {n: "a" for n in names}
+            for tn in orders[:3]:
+                tstring = "".join(tn)
+                for backend in ("einsum", "libtensor"):
+                    for opt in (True, False):
+                        key = repr((gen.canonical_key(desc, ()), pk, tn,
+                                    backend, opt, "spin"))
+                        results.append(_check(key, term, tn, tstring, 0, True,
+                                              backend, opt, spin=spin))
         return results
     if case[0] == "p":
         gid, builder, tstr, options = PERM_GENS[case[1]]
